@@ -6,10 +6,85 @@ from oracles import adapter_o as A
 from props._util import rng_for, run_cases
 
 LEVEL = "other"
-DEDUCTIVE = [{"module": "rnapolis.adapter", "sidecar": "contracts.adapter_c", "targets": ["unify_classification", "unify_classification@callee", "lemma:label_languages_disjoint", "parse_unit_id", "_process_interaction_line", "parse_fr3d_output"]}]
-TRUSTED = ["orjson", "CPython str methods", "z3/cvc5 string theories"]
-ASSUMPTIONS = ["labels are ASCII in the deductive part (str.isdigit/lower/upper on non-ASCII are excluded by precondition); the bounded part is unrestricted on its alphabet"]
-EXPLANATION = "see DESIGN.md 4/C19"
+DEDUCTIVE = [
+    {"module": "rnapolis.adapter", "sidecar": "contracts.adapter_c",
+     "targets": ["unify_classification", "unify_classification@callee", "lemma:label_languages_disjoint", "lemma:split_of_empty", "parse_unit_id", "_process_interaction_line",
+                 "parse_fr3d_output", "match_dssr_lw", "match_dssr_name_to_residue", "match_dssr_name_to_residue@callee"]},
+    # the DSSR import loops: quantified invariants; an obligation on which z3's model-based instantiation wanders is handed to
+    # pure E-matching after 1.5 s instead of 4 s (same back ends, same verdicts)
+    {"module": "rnapolis.adapter", "sidecar": "contracts.adapter_c", "targets": ["parse_dssr_output"], "opts": {"z3_first_ms": 1500}},
+]
+TRUSTED = [
+    "z3 5.1.0 / cvc5 1.0.3 (string and regular-language theories)", "pyvc encoding of Python semantics (DESIGN 2.3)", "CPython 3.12 str methods",
+    "external str.split (contracts.adapter_c._ext_split): s.split(<constant non-empty separator>) is a deterministic function of (s, sep) "
+    "with at least one piece; WHAT the pieces are is the assumed lemma split_characterisation (maximal sep-free pieces in order: each "
+    "a substring of s at its offset, followed by sep except the last, which ends s; joining with sep gives s) - used only by "
+    "lemma:split_of_empty (the empty string has one piece), every other proof needs only that spec and code split the same string",
+    "external str.strip (no argument): an uninterpreted deterministic function of the string (nothing else assumed)",
+    "engine model of int(str) (pyvc/calls.py ext_int_of_str): ValueError unless the string is an optionally signed ASCII decimal numeral "
+    "(underscores, surrounding whitespace allowed); value = uninterpreted py_int tied to str.to_int on digit strings; non-ASCII digits are "
+    "outside this model",
+    "external builtins.open(path[, 'r']) / TextFile.__enter__ / __exit__ / read: the file exists and is readable (no OSError), iterating it "
+    "yields file_lines(path), read() yields file_text(path) - functions of the path (the file does not change meanwhile); __exit__ never "
+    "swallows an exception",
+    "external orjson.loads: returns a NEW document object of the assumed DSSR schema (dict with optional 'models' = list of dicts with "
+    "integer 'model' and dict 'parameters'; optional 'pairs' = list of dicts whose 'nt1'/'nt2'/'LW' are strings when present; optional "
+    "'stacks' = list of dicts with a string 'nts_long'); nothing is assumed about its content (it is the ghost result D); a document "
+    "violating the schema (e.g. a number where a name is expected) is outside the contract",
+    "externals DssrDoc.__contains__ / DssrDoc.get / DssrModel.get and the fixed-key records DssrPair / DssrStack: dict reads of that schema "
+    "(key present -> value, absent or null -> the default)",
+    "externals InteractionsData.__getitem__ / __setitem__: the dict {'base_pairs': [..], ..} of parse_fr3d_output as an object with one heap "
+    "field per key (d[k].append(x) is the store d[k] = d[k] + [x])",
+    "attribute Residue.full_name (common.py, cached property): a pure function of the residue's (label, auth), returning a string",
+]
+ASSUMPTIONS = [
+    "labels are ASCII in the deductive part (str.isdigit/lower/upper on non-ASCII are excluded by precondition: requires of "
+    "unify_classification, _process_interaction_line, parse_fr3d_output); the bounded part is unrestricted on its alphabet",
+    "definitional abbreviations (explicit definitions = conservative extensions, contracts.adapter_c.LEMMAS kind 'definition'): "
+    "numeral(s) == 'int(s) does not raise ValueError' (numeral_definition); isLW/isST/isBPH/isBR(lbl) == lbl matches the regular "
+    "language of the property (label_language_definition); class_of(lbl) == the class the label denotes, by cases on these "
+    "(class_of_definition); lwname(s) == s is one of the 18 LW member names, lwclass(s) == that member (lw_name_definition); "
+    "namedS(sid, key) == some residue of structure sid carries the name, posS(sid, key) == position of the first one, by unique "
+    "description (resolution_definition: relative to structure.residues as it is when instantiated - no function under contract "
+    "writes Structure3D.residues, see their frame obligations)",
+    "the four label languages are pairwise disjoint: PROVED (lemma:label_languages_disjoint), so 'the category a label denotes' is well defined",
+    "classification members are encoded by position in the concatenation of the member lists of LeontisWesthof, StackingTopology, BPh, BR "
+    "(engine shape enum[A,B,..]); the table CLS (value -> position) written out in the sidecar is checked against the real classes at import",
+    "_process_interaction_line: the dict passed in has exactly the five category keys, bound to five DISTINCT list objects (as built by "
+    "parse_fr3d_output, its only caller): the model holds the lists as values of five fields, so aliasing between them is excluded",
+    "a Residue3D of the structure is represented by its Residue part (label, auth) - what full_name reads; every residue has an auth or a "
+    "label identity (requires `identified`), so full_name is a string",
+    "a listing line = a line that, stripped, does not start with '#' (comment lines are not part of the listing; the bounded oracle reads "
+    "the property the same way); the unit ids / label of a line are the first three tab-separated fields of the STRIPPED line",
+    "exceptional exits of one statement are taken in evaluation order (sidecar opt-in ORDERED_RAISES: the first subexpression that raises "
+    "ends the statement)",
+    "DSSR: D (ghost result) is the document whose pairs/stacks are imported - the selected model's 'parameters' or the document itself; "
+    "WHICH model is selected is not part of the property and not specified",
+]
+EXPLANATION = (
+    "Under contract (contracts/adapter_c.py, all discharged): unify_classification (the five label clauses over ALL ASCII strings, never "
+    "raises) and its caller view @callee (same clauses with a shaped result, through isLW.. / class_of); parse_unit_id (result == "
+    "unit_residue(nt): chain = field 2, name = field 3, number = int(field 4), icode = field 7 iff >= 8 fields and non-empty, else None; "
+    "label None; modifies nothing, i.e. a pure function of nt; raises IndexError exactly when < 5 fields and ValueError exactly when "
+    ">= 5 fields and field 4 is no numeral - raises_exact, both directions); _process_interaction_line (total: raises = []; returns "
+    "True iff the line has >= 3 tab fields and two parsable unit ids; each of the five category lists == its old value with the line's "
+    "interaction (exactly those two residues, the class the label denotes) appended iff the line is parsable AND its label denotes that "
+    "category ('other' = unrecognised), else untouched - with the languages disjoint this is 'exactly one append to exactly the list of "
+    "the category, or nothing'; frame: no other object's lists change); parse_fr3d_output (never raises; loop invariant / postcondition per "
+    "category: ghost S = source line of every interaction, strictly increasing, each a non-comment parsable line of that category whose "
+    "interaction is the element; ghost P = position of every such line: one interaction per parsable line, in order, nothing else; blank "
+    "lines are skipped soundly by lemma:split_of_empty); match_dssr_lw (exactly the 18 member names written out in the sidecar give that "
+    "member, anything else None, no KeyError - membership in dir() fails safe.no_KeyError); match_dssr_name_to_residue (None for None / "
+    "a name no residue carries, else the FIRST residue whose full_name equals the text after the last ':'; + caller view @callee); "
+    "parse_dssr_output (never raises; base pairs == exactly the document's pairs with a member-name class and two resolving names, in "
+    "order, joining the resolved residues with that class [S_p / P_p]; stackings == exactly the steps (stack a, member t >= 1) whose "
+    "members t-1 and t both resolve, in document and stack order, joining those two residues [SS / ST / POS]; the three other lists "
+    "empty). Engine features added for this: enum[A,B,..] shapes, dict-literal objects, observer contract calls inside comprehensions "
+    "(call_contract_elementwise), ordered raises, not-None obligations at constructors (opt-ins of this sidecar). "
+    "Bounded stand-ins stay for: labels to length 4/5 exhaustively, generated listings and DSSR documents through the real functions "
+    "(incl. hidden module state: a memoising parse_unit_id is refused by the engine - module-level mutable state is outside its subset - "
+    "and caught by the listing oracle)."
+)
 
 
 def bounded(tier, seed):
